@@ -78,7 +78,7 @@ def run(chk):
     bufs.append(argen.render([dict(m, ts=b'\xe2\x80\x831\xc2\xa0', size_text=b'0')]))
     cases = [("ariter", [b]) for b in bufs]
     impl, model = chk.run_both(cases)
-    chk.compare("hostile-archives", cases, impl, model, nontrivial=lambda c, r: r != "notar")
+    chk.compare("hostile-archives", cases, impl, model, nontrivial=lambda c, r: r != "notar", spec=False)   # consistency is judged by check_consistency
     for c, i in zip(cases, impl):
         check_consistency(chk, c, i, len(c[1][0]))
     # repeated loads give the same outcome
